@@ -23,8 +23,15 @@ fn node_count<T: SizedType>(node: &StateTreeSkeleton<T>) -> usize {
 /// Score of carrying a whole subtree over: the number of nodes it preserves.
 /// (Counting copy operations instead would rate a fully matching subtree no
 /// higher than a sibling that shares a single leaf with it.)
+/// A subtree without any state word (a call of a stateless function) counts half:
+/// among alignments that preserve equally many nodes, the one that carries state wins.
 fn subtree_weight<T: SizedType>(node: &StateTreeSkeleton<T>) -> f64 {
-    node_count(node) as f64
+    let nodes = node_count(node) as f64;
+    if node.total_size() == 0 {
+        nodes * 0.5
+    } else {
+        nodes
+    }
 }
 
 /// Enum representing the result of LCS algorithm
